@@ -11,7 +11,7 @@ import (
 )
 
 func TestMain(m *testing.M) {
-	core.Main(m, "C12", "cases = server configuration (global parameter map nil/empty/1..8 entries, version, auth none/clear-text) x 1..8 connections (sequential or concurrently connecting with distinct users) whose startup packets carry 0..12 key/value pairs (well-known keys, UTF-8, empty values, duplicates, pairs after the terminator) or are malformed (missing terminator, dangling key) or are CancelRequests (first packet, after an SSL refusal); non-trivial = >= 2 concurrent connections with different users and a non-empty global map, duplicates / empty values / surplus pairs, or a cancel after SSL negotiation; distinct = distinct canonical JSON")
+	core.Main(m, "C12", "cases = server configuration (global parameter map nil/empty/1..8 entries, version, auth none/clear-text) x 1..8 connections (sequential or concurrently connecting with distinct users) whose startup packets carry 0..12 key/value pairs (well-known keys, UTF-8, empty values, duplicates, pairs after the terminator) or are malformed (missing terminator, dangling key) or are CancelRequests (first packet, after an SSL refusal, inside TLS after an accepted SSLRequest; process ids / keys whose bytes could be read as start-up parameters); non-trivial = >= 2 concurrent connections with different users and a non-empty global map, duplicates / empty values / surplus pairs, or a cancel after SSL negotiation; distinct = distinct canonical JSON")
 }
 
 var wellKnown = []string{"database", "application_name", "client_encoding", "options", "DateStyle", "extra_float_digits"}
@@ -88,6 +88,23 @@ func genCase(t *rapid.T) Case {
 	n := rapid.SampledFrom([]int{1, 1, 2, 3, 4, 8}).Draw(t, "nconns")
 	for i := 0; i < n; i++ {
 		c.Conns = append(c.Conns, genConn(t, i, c.Auth))
+	}
+	// with certificates configured the SSL negotiation succeeds: cancel packets then arrive inside TLS
+	if c.TLS = rapid.IntRange(0, 3).Draw(t, "certificates") == 0; c.TLS {
+		for i := range c.Conns {
+			switch c.Conns[i].Kind {
+			case "ssl-ok":
+				c.Conns[i].Kind = "ok"
+			case "ssl-cancel":
+				c.Conns[i].Kind = "tls-cancel"
+			}
+		}
+	}
+	for i := range c.Conns {
+		if k := c.Conns[i].Kind; (k == "cancel" || k == "ssl-cancel" || k == "tls-cancel") && rapid.Bool().Draw(t, "cancel-content") {
+			c.Conns[i].PID = rapid.SampledFrom([]uint32{0, 1, 0x00FFFFFF, 0x01000000, 0x75736572, 0xFFFFFFFF}).Draw(t, "pid")
+			c.Conns[i].Key = rapid.SampledFrom([]uint32{0, 1, 0x00000000, 0x75000000, 0xFFFFFFFF}).Draw(t, "key")
+		}
 	}
 	c.Parallel = n > 1 && rapid.Bool().Draw(t, "parallel")
 	return c
